@@ -87,7 +87,8 @@ pub struct How {
     /// put the (leaf) builder alone into a `CompoundBuilder`
     pub single_compound: bool,
     /// take the owned variants of the API where one exists (`add_item_owned` / `into_owned` for SDES
-    /// items, `reason_owned` for BYE after the other fields were set, `native_data_owned` for RPSI)
+    /// items, `reason_owned` for BYE after the other fields were set); RPSI `native_data_owned` (after
+    /// `payload_type`) goes with `fb_owned`, because `builder_owned` needs a `'static` FCI builder
     #[serde(default)]
     pub owned: bool,
     /// "measure, then go on configuring": query the size of the partially configured builder after
@@ -649,6 +650,20 @@ pub fn build_exact(p: &PacketSpec, how: How) -> Result<Vec<u8>, BuildErr> {
     }
 }
 
+/// The first n bytes after `write_into` a garbage-prefilled buffer of n + `slack` bytes (the image must not
+/// depend on how much room the caller offers). `None` when the configuration is rejected or a write goes wrong:
+/// those are judged through `build_exact`.
+pub fn build_with_slack(p: &PacketSpec, how: How, slack: usize) -> Option<Vec<u8>> {
+    let o = observe_build(p, how, |n| match n {
+        Some(n) => vec![(n + slack, true)],
+        None => vec![],
+    });
+    match (o.size, o.writes.first()) {
+        (Ok(Ok(n)), Some(w)) if w.result == Ok(Ok(n)) => Some(w.after[..n].to_vec()),
+        _ => None,
+    }
+}
+
 /// `build_exact` for oracles whose domain is the accepted configurations: any trouble is a Failure.
 pub fn build_valid(p: &PacketSpec, how: How, ctx: &str) -> Result<Vec<u8>, Failure> {
     match build_exact(p, how) {
@@ -722,6 +737,10 @@ fn sli_by_name(s: &str) -> Option<(u16, u16, u8)> {
         let at = s.find(key)? + key.len();
         let rest = s[at..].trim_start_matches(|c: char| c == ':' || c == ' ');
         let digits: String = rest.chars().take_while(|c| c.is_ascii_digit()).collect();
+        // a plain decimal literal only: "0x12", "12u16", "1_000" are another layout (-> calibration)
+        if rest[digits.len()..].chars().next().map(|c| c.is_ascii_alphanumeric() || c == '_').unwrap_or(false) {
+            return None;
+        }
         digits.parse().ok()
     };
     Some((num_after("start")? as u16, num_after("count")? as u16, num_after("picture_id")? as u8))
@@ -949,7 +968,7 @@ pub fn observe_packet(b: &[u8]) -> Result<Value, Failure> {
                 Err(e) => Ok(perr(&e)),
                 Ok(p) => no_panic("SenderReport accessors", || {
                     json!({
-                        "type": "SR", "count": p.count(), "n_reports": p.n_reports(), "padding": p.padding(),
+                        "type": "SR", "count": p.count(), "n_reports": p.n_reports(), "padding": obs_pad(p.padding()),
                         "ssrc": p.ssrc(), "ntp": p.ntp_timestamp(), "rtp": p.rtp_timestamp(),
                         "packet_count": p.packet_count(), "octet_count": p.octet_count(),
                         "blocks": p.report_blocks().map(|b| rb_value(&b)).collect::<Vec<_>>(),
@@ -963,7 +982,7 @@ pub fn observe_packet(b: &[u8]) -> Result<Value, Failure> {
                 Err(e) => Ok(perr(&e)),
                 Ok(p) => no_panic("ReceiverReport accessors", || {
                     json!({
-                        "type": "RR", "count": p.count(), "n_reports": p.n_reports(), "padding": p.padding(),
+                        "type": "RR", "count": p.count(), "n_reports": p.n_reports(), "padding": obs_pad(p.padding()),
                         "ssrc": p.ssrc(),
                         "blocks": p.report_blocks().map(|b| rb_value(&b)).collect::<Vec<_>>(),
                     })
@@ -976,7 +995,7 @@ pub fn observe_packet(b: &[u8]) -> Result<Value, Failure> {
                 Err(e) => Ok(perr(&e)),
                 Ok(p) => {
                     let chunks = sdes_value(&p)?;
-                    let padding = no_panic("Sdes::padding", || p.padding())?;
+                    let padding = obs_pad(no_panic("Sdes::padding", || p.padding())?);
                     Ok(json!({ "type": "SDES", "count": p.count(), "padding": padding, "chunks": chunks }))
                 }
             }
@@ -988,7 +1007,7 @@ pub fn observe_packet(b: &[u8]) -> Result<Value, Failure> {
                 Ok(p) => {
                     let sources: Vec<u32> = no_panic("Bye::ssrcs", || p.ssrcs().collect())?;
                     let reason = no_panic("Bye::reason", || p.reason().map(hex))?;
-                    let padding = no_panic("Bye::padding", || p.padding())?;
+                    let padding = obs_pad(no_panic("Bye::padding", || p.padding())?);
                     Ok(json!({ "type": "BYE", "count": p.count(), "padding": padding, "sources": sources, "reason": reason }))
                 }
             }
@@ -1000,7 +1019,7 @@ pub fn observe_packet(b: &[u8]) -> Result<Value, Failure> {
                 Ok(p) => {
                     let data = no_panic("App::data", || hex(p.data()))?;
                     let name = no_panic("App::name", || hex(&p.name()))?;
-                    let padding = no_panic("App::padding", || p.padding())?;
+                    let padding = obs_pad(no_panic("App::padding", || p.padding())?);
                     Ok(json!({ "type": "APP", "subtype": p.subtype(), "padding": padding, "ssrc": p.ssrc(), "name": name, "data": data }))
                 }
             }
@@ -1011,7 +1030,7 @@ pub fn observe_packet(b: &[u8]) -> Result<Value, Failure> {
                 Err(e) => Ok(perr(&e)),
                 Ok(p) => {
                     let fci = tfb_fci_value(&p)?;
-                    let padding = no_panic("TransportFeedback::padding", || p.padding())?;
+                    let padding = obs_pad(no_panic("TransportFeedback::padding", || p.padding())?);
                     Ok(json!({ "type": "TFB", "format": p.count(), "padding": padding, "sender": p.sender_ssrc(), "media": p.media_ssrc(), "fci": fci }))
                 }
             }
@@ -1022,7 +1041,7 @@ pub fn observe_packet(b: &[u8]) -> Result<Value, Failure> {
                 Err(e) => Ok(perr(&e)),
                 Ok(p) => {
                     let fci = pfb_fci_value(&p)?;
-                    let padding = no_panic("PayloadFeedback::padding", || p.padding())?;
+                    let padding = obs_pad(no_panic("PayloadFeedback::padding", || p.padding())?);
                     Ok(json!({ "type": "PFB", "format": p.count(), "padding": padding, "sender": p.sender_ssrc(), "media": p.media_ssrc(), "fci": fci }))
                 }
             }
@@ -1034,6 +1053,14 @@ pub fn observe_packet(b: &[u8]) -> Result<Value, Failure> {
                 Ok(p) => Ok(json!({ "type": "UNKNOWN", "pt": p.type_(), "count": p.count(), "bytes": hex(p.data()) })),
             }
         }
+    }
+}
+
+/// the padding a parsed view reports, as a comparable value: `None` and `Some(0)` both mean "no padding"
+fn obs_pad(p: Option<u8>) -> Value {
+    match p {
+        None | Some(0) => Value::Null,
+        Some(n) => json!(n),
     }
 }
 
